@@ -6,4 +6,6 @@ git diff --quiet || { echo "/repo dirty"; exit 2; }
 git apply "$P" || { echo "patch does not apply"; exit 3; }
 cd /verif && timeout 3000 ./check $PROP --tier $TIER 2>&1 | grep "^VIOLATION\|tier=" | cut -c1-200
 git -C /repo checkout -- .
+# generated tables and evidence written by this run describe the changed tree: restore the committed ones
+git -C /verif checkout -- lean/ElkVerif/Gen evidence 2>/dev/null
 git -C /repo status --short | head -3
